@@ -8,6 +8,7 @@ TARGETS = ['Properties/C02.vo', 'Proofs/PackUnpackX.vo', 'Bridge/FragBridge.vo',
            'Bridge/CodegenBridge.vo', 'Bridge/RefBridge.vo', 'Bridge/PlumbingBridge.vo']
 KERNELS = ['G1_frag', 'G6_int', 'G8_data', 'G3_move', 'G4_seq', 'G5_bits', 'G11_codegen', 'G16_ref', 'G16b_optional', 'G17_builder', 'G19_field_ctor']
 PROP_FILE = 'Properties/C02.v'
+WHOLE_PACKET = True      # Tie A over all of the pack / unpack machinery (check.py: WHOLE_PACKET_KERNELS)
 
 
 def same(v, parsed):
@@ -243,6 +244,41 @@ def run(tier, seed, rng):
             for f in failures:
                 if (f.get('cls'), f.get('value')) == (decl.cname(r['c']), decl.py_value(r['value'])):
                     f['inside_theorem_hypotheses'] = True
+    # ---- strings ended by a regex delimiter whose match depends on context (anchors, word boundaries, look-behind), delimiter kept in
+    # the value: whether a value satisfies the declaration is decided on the string alone, so every such value must survive
+    # pack() / unpack() whatever the previous field serialized to (the bytes before the string are not part of it)
+    import re as _re, itertools as _it
+    zoo = [rb'(?m)^\.\n', rb'(?<!\r)\n', rb'\bX', rb'^a', rb'(?<=a);', rb'X\b', rb'(?<![a-z])X', rb'\B;']
+    alpha = [0x61, 0x3b, 0x58, 0x0a, 0x0d, 0x2e, 0x20]
+    zsrc, zcases, zmeta = "", [], []
+    for zi, pat in enumerate(zoo):
+        zsrc += f"class Z{zi}(Packet):\n    p = Data(1)\n    d = Data(until_marker=re.compile({pat!r}), include_delimiter=True)\n    t = Int(1)\n"
+        rx = _re.compile(pat)
+        cands = [bytes(t) for L in range(1, 4) for t in _it.product(alpha, repeat=L)]
+        good = [d for d in cands if (lambda m: m is not None and m.end() == len(d) and m.end() > 0)(rx.search(d))]
+        if tier == 'quick' and len(good) > 12:
+            good = good[:4] + rng.sample(good[4:], 8)
+        for d in good:
+            for pre in (b'\n', b'\r', b'a', b'X', b' '):
+                val = f"Z{zi}(p={pre!r}, d={d!r}, t=7)"
+                raw = pre + d + b'\x07'
+                zcases.append(dict(cls=f"Z{zi}", op='pack', value={"py": val})); zmeta.append(('pack', zi, pat, pre, d, raw, val))
+                zcases.append(dict(cls=f"Z{zi}", op='roundtrip', raw=raw.hex(), offset=0)); zmeta.append(('unpack', zi, pat, pre, d, raw, val))
+                zcases.append(dict(cls=f"Z{zi}", op='consistency', value={"py": val})); zmeta.append(('consistency', zi, pat, pre, d, raw, val))
+    zres = run_impl(os.path.join(VERIF, 'harness', 'impl_pkt.py'), dict(header=decl.HEADER_PY, blocks=[dict(name='zoo', src=zsrc)], modname='c02z', cases=zcases))
+    dist['context_sensitive_delimiters'] = len(zcases) // 3
+    for (kind, zi, pat, pre, d, raw, val), o in zip(zmeta, zres['outcomes']):
+        ok = True
+        if kind == 'pack':
+            ok = o.get('ok') == raw.hex()
+        elif kind == 'unpack':
+            ok = 'ok' in o and dict(o['ok']['f']) == {'p': {'x': pre.hex()}, 'd': {'x': d.hex()}, 't': 7} and o.get('end') == len(raw)
+        else:
+            ok = isinstance(o.get('ok'), dict) and o['ok'].get('dont_raise') is True and o['ok'].get('plain') is True
+        if not ok:
+            failures.append(dict(kind='oracle', sig='context-delimiter', what=f"{val}: the string ends at the first match of its delimiter in the string itself, but {kind} gives {json.dumps(o)[:300]} (expected encoding {raw.hex()})",
+                                 classes="class Z%d(Packet):\n    p = Data(1)\n    d = Data(until_marker=re.compile(%r), include_delimiter=True)\n    t = Int(1)\n" % (zi, pat),
+                                 cls=f"Z{zi}", value=val, raw=raw.hex(), offset=0, observed=o))
     return dict(evaluations=len(records), distinct_nontrivial=dist['packed'],
                 rule=("random class tables over the language without regex / read-to-end fields and without a search window, with and without "
                       "positioning, code generation options varied; per class several values consistent with the declaration (lengths, counts, "
